@@ -12,7 +12,7 @@
                 fileListener a file on which the AST listener raises (duplicate declaration)
                 notMo        an existing file that is not *.mo
                 dirEmpty     an existing directory without *.mo files
-                missing      a path that does not exist
+                missing, missing2   two paths that do not exist
      outdir   "ok" | "missing" | "blocked" (exists, but <model>.py cannot be written there) | "default" (no -o)
      models   sequence of -m arguments (class names)
      target   "none" | "sympy" | "casadi" | "bogus"
@@ -57,7 +57,7 @@ NPartsEnv == atoi(IOEnv.C26_NPARTS)
 
 -----------------------------------------------------------------------------
 (* the file system the invocations talk about *)
-PathKinds == {"dirGood", "fileGood", "dirTwin", "fileSyntax", "fileListener", "notMo", "dirEmpty", "missing"}
+PathKinds == {"dirGood", "fileGood", "dirTwin", "fileSyntax", "fileListener", "notMo", "dirEmpty", "missing", "missing2"}
 ModelNames == {"Leaf", "Mid", "Top", "Dot", "Solo", "Twin", "Bad", "Nope"}
 OptKinds == {"valid", "noeq", "twoeq"}
 
@@ -95,7 +95,7 @@ ArgError(v) == \/ v.paths = {}
                \/ v.target = "bogus"
                \/ (v.target \in {"sympy", "casadi"} /\ v.models = <<>>)
 UsageErrors(v) == (IF v.outdir = "missing" THEN 1 ELSE 0)
-                  + (IF "missing" \in v.paths THEN 1 ELSE 0)
+                  + Cardinality(v.paths \cap {"missing", "missing2"})
                   + Cardinality({n \in DOMAIN v.opts : v.opts[n] # "valid"})
 FailingModels(v) == Cardinality({n \in DOMAIN v.models : Fails(v.models[n], v.target, v.paths, v.outdir)})
 Expected(v) ==
@@ -106,10 +106,17 @@ Expected(v) ==
     ELSE [kind |-> "return", code |-> FailingModels(v)]
 
 -----------------------------------------------------------------------------
-(* the family: everything within MaxDev changes of a plain invocation *)
-Base == [paths |-> {"dirGood"}, outdir |-> "ok", models |-> <<"Leaf">>, target |-> "none", opts |-> <<>>, verbose |-> 0]
+(* the family: everything within MaxDev changes of a plain invocation (base 0), and everything within MaxDev
+   changes of the model / output / option / verbosity arguments of two calls on a rich library (bases 1, 2) *)
+Base(b) == CASE b = 0 -> [paths |-> {"dirGood"}, outdir |-> "ok", models |-> <<"Leaf">>, target |-> "none", opts |-> <<>>, verbose |-> 0]
+             [] b = 1 -> [paths |-> {"dirGood", "fileGood", "dirTwin"}, outdir |-> "ok", models |-> <<"Leaf">>, target |-> "casadi",
+                          opts |-> <<>>, verbose |-> 0]
+             [] b = 2 -> [paths |-> {"dirGood", "fileGood", "dirTwin"}, outdir |-> "ok", models |-> <<"Leaf">>, target |-> "sympy",
+                          opts |-> <<>>, verbose |-> 0]
+Bases == 0..2
+Dims == {"paths", "outdir", "models", "target", "opts", "verbose"}
+FreeDims(b) == IF b = 0 THEN Dims ELSE Dims \ {"paths", "target"}
 SeqsUpTo(S, n) == UNION {[1..k -> S] : k \in 0..n}
-Dev(v) == Cardinality({f \in {"paths", "outdir", "models", "target", "opts", "verbose"} : v[f] # Base[f]})
 Hash(v) == (17 * Cardinality(v.paths) + 3 * Len(v.models) + 5 * Len(v.opts) + 7 * v.verbose
             + 11 * Cardinality(v.paths \cap {"dirGood", "fileSyntax", "missing", "dirTwin"})
             + 13 * Cardinality({n \in DOMAIN v.models : v.models[n] \in {"Leaf", "Bad", "Twin", "Top"}})
@@ -118,21 +125,20 @@ Hash(v) == (17 * Cardinality(v.paths) + 3 * Len(v.models) + 5 * Len(v.opts) + 7 
 (* outside the verdict family (see notes/C26.md): with -t casadi the files of PATH are never parsed, so what the
    status should be when one of them is broken is not fixed by the property *)
 InFamily(v) == ~(v.target = "casadi" /\ v.paths \cap {"fileSyntax", "fileListener"} # {})
-Dims == {"paths", "outdir", "models", "target", "opts", "verbose"}
 Dom(f) == CASE f = "paths"   -> {P \in SUBSET PathKinds : Cardinality(P) <= MaxPaths}
             [] f = "outdir"  -> {"ok", "missing", "blocked", "default"}
             [] f = "models"  -> SeqsUpTo(ModelNames, MaxModels)
             [] f = "target"  -> {"none", "sympy", "casadi", "bogus"}
             [] f = "opts"    -> SeqsUpTo(OptKinds, MaxOpts)
             [] f = "verbose" -> 0..2
-(* the invocations that differ from Base exactly in the dimensions D *)
-Variants(D) == [f \in Dims |-> IF f \in D THEN Dom(f) \ {Base[f]} ELSE {Base[f]}]
-VariantSet(D) == LET V == Variants(D) IN
+(* the invocations that differ from base b exactly in the dimensions D *)
+Variants(b, D) == [f \in Dims |-> IF f \in D THEN Dom(f) \ {Base(b)[f]} ELSE {Base(b)[f]}]
+VariantSet(b, D) == LET V == Variants(b, D) IN
     [paths : V["paths"], outdir : V["outdir"], models : V["models"], target : V["target"], opts : V["opts"], verbose : V["verbose"]]
+Around(b, n) == UNION {VariantSet(b, D) : D \in {E \in SUBSET FreeDims(b) : Cardinality(E) = n}}
 Invocations ==
-    {v \in UNION {VariantSet(D) : D \in {E \in SUBSET Dims : Cardinality(E) <= MaxDev}} : InFamily(v)}
-    \cup {v \in UNION {VariantSet(D) : D \in {E \in SUBSET Dims : Cardinality(E) = SampleDev}} :
-             InFamily(v) /\ Hash(v) % NParts = Part}
+    {v \in UNION {Around(b, n) : b \in Bases, n \in 0..MaxDev} : InFamily(v)}
+    \cup {v \in UNION {Around(b, SampleDev) : b \in Bases} : InFamily(v) /\ Hash(v) % NParts = Part}
 
 -----------------------------------------------------------------------------
 (* operational side: the phases of main() *)
@@ -155,7 +161,7 @@ ArgParse ==
 
 CheckPaths ==
     /\ pc = "CheckPaths"
-    /\ errors' = errors + (IF inv.outdir = "missing" THEN 1 ELSE 0) + (IF "missing" \in inv.paths THEN 1 ELSE 0)
+    /\ errors' = errors + (IF inv.outdir = "missing" THEN 1 ELSE 0) + Cardinality(inv.paths \cap {"missing", "missing2"})
     /\ pc' = "ParseOptions"
     /\ UNCHANGED <<inv, mi, nfiles, nerrfiles, touched, status, why>>
 
